@@ -265,3 +265,9 @@ pub proof fn lemma_lower_seq_idem(s: Seq<char>)
         lemma_lower_seq_concat(lower_seq(s.drop_last()), u_to_lower(s.last()));
     }
 }
+
+// A-validated per char (exhaustive over all scalar values): lower-casing never yields the empty string
+#[verifier::external_body]
+pub proof fn axiom_lower_nonempty(c: char)
+    ensures u_to_lower(c).len() > 0
+{ }
